@@ -125,6 +125,8 @@ fn value_text(v: &Value) -> Option<String> {
         Value::None => "null".into(),
         Value::Bool(b) => format!("{}", b),
         Value::Int(i) if *i >= 0 => format!("{}", i),
+        // a digit string beyond i64 becomes a float: written back as its (integral) digits
+        Value::Float(f) if f.0.is_finite() && f.0 >= 0.0 && f.0.fract() == 0.0 => format!("{:.0}", f.0),
         Value::Str(s) => quote(s),
         Value::Duration(d) => dur_text(enc::dur_ns(d)),
         _ => return None,
@@ -590,7 +592,14 @@ pub fn lex(text: &str) -> (Vec<String>, usize) {
             }
             // an empty string literal is an empty keyword: dropped by design (documented)
             if !body.is_empty() {
-                toks.push(format!("T:{}", unescape(&body)));
+                // a quoted identifier (`["p50"]`) is the same token as the bare word
+                if body.chars().all(|c| c.is_alphanumeric() || c == '_') {
+                    if let Some(t) = norm_word(&body) {
+                        toks.push(t);
+                    }
+                } else {
+                    toks.push(format!("T:{}", unescape(&body)));
+                }
             }
             i = j + 1;
         } else if c == '|' {
@@ -682,24 +691,39 @@ const GLUE_KEYWORDS: &[&str] = &[
     "fields", "not", "and", "or",
 ];
 
-/// is `word` a run of keywords directly followed by `rest` (no blank in between)?
-fn unglue(word: &str) -> Option<(Vec<&'static str>, &str)> {
-    let mut w = word;
-    let mut ks = vec![];
-    loop {
-        match GLUE_KEYWORDS.iter().find(|k| w.starts_with(**k)) {
-            Some(k) => {
-                ks.push(*k);
-                w = &w[k.len()..];
+fn is_default_name(t: &str) -> bool {
+    DEFAULT_NAMES.contains(&t) || (t.starts_with("T:p") && t.len() > 3 && t[3..].chars().all(|c| c.is_ascii_digit()))
+}
+
+/// can `word` be read as one or more keywords directly followed by a token of `avail` (or by
+/// nothing)?  On success the used tokens are removed from `avail`.
+fn unglue(word: &str, avail: &mut Vec<String>) -> bool {
+    fn go(w: &str, avail: &mut Vec<String>, depth: usize) -> bool {
+        for k in GLUE_KEYWORDS {
+            if let Some(rest) = w.strip_prefix(k) {
+                let mut trial = avail.clone();
+                if let Some(n) = norm_word(k) {
+                    if let Some(i) = trial.iter().position(|x| *x == n) {
+                        trial.remove(i);
+                    }
+                }
+                let ok = if rest.is_empty() {
+                    true
+                } else if let Some(i) = norm_word(rest).and_then(|n| trial.iter().position(|x| *x == n)) {
+                    trial.remove(i);
+                    true
+                } else {
+                    depth < 3 && go(rest, &mut trial, depth + 1)
+                };
+                if ok {
+                    *avail = trial;
+                    return true;
+                }
             }
-            None => break,
         }
+        false
     }
-    if ks.is_empty() {
-        None
-    } else {
-        Some((ks, w))
-    }
+    go(word, avail, 0)
 }
 
 /// the gap is only a keyword written without a blank before the next token (`countby x`, `asx`)
@@ -715,43 +739,34 @@ pub fn gap_is_glued_keyword(orig: &str, canon: &str) -> bool {
         return false;
     }
     for t in &extra_o {
-        let w = match t.strip_prefix("T:") {
-            Some(w) => w,
-            None => return false,
-        };
-        match unglue(w) {
-            Some((ks, rest)) => {
-                for k in ks {
-                    if let Some(n) = norm_word(k) {
-                        if let Some(i) = extra_c.iter().position(|x| *x == n) {
-                            extra_c.remove(i);
-                        }
-                    }
-                }
-                if !rest.is_empty() {
-                    let n = norm_word(rest).unwrap_or_default();
-                    match extra_c.iter().position(|x| *x == n) {
-                        Some(i) => {
-                            extra_c.remove(i);
-                        }
-                        None => return false,
-                    }
+        match t.strip_prefix("T:") {
+            Some(w) => {
+                if !unglue(w, &mut extra_c) {
+                    return false;
                 }
             }
             None => return false,
         }
     }
-    extra_c.iter().all(|t| DEFAULT_NAMES.contains(&t.as_str()))
+    extra_c.iter().all(|t| is_default_name(t))
 }
 
 /// None = covered; Some(explanation) = text of the original that the AST does not account for
 pub fn coverage_gap(orig: &str, canon: &str) -> Option<String> {
+    coverage_gap_with(orig, canon, &[])
+}
+
+/// `optional`: tokens the original may contain in addition (once each): the explicit output column
+/// of `split(x) … as x`, which equals the default
+pub fn coverage_gap_with(orig: &str, canon: &str, optional: &[String]) -> Option<String> {
     let (to, po) = lex(orig);
     let (tc, pc) = lex(canon);
     if po != pc {
         return Some(format!("the text has {} stage separators, the accepted query has {}", po, pc));
     }
-    let extra_o = minus(&to, &tc);
+    let mut opt: Vec<String> = optional.to_vec();
+    opt.sort();
+    let extra_o = minus(&minus(&to, &tc), &opt);
     let extra_c: Vec<String> = minus(&tc, &to)
         .into_iter()
         .filter(|t| !DEFAULT_NAMES.contains(&t.as_str()) && !(t.starts_with("T:p") && t[3..].chars().all(|c| c.is_ascii_digit())))
@@ -1116,13 +1131,20 @@ fn oracles(ctx: &mut Ctx, rep: &mut Rep, rnd: &Renderer, family: &str, q: &str, 
             rep.fail(ctx, family, q, "C04/canonical-text-reparses-differently", "the canonical rendering of the accepted AST does not parse back to that AST", i);
         }
     }
-    let gap = coverage_gap(q, &canon).and_then(|g| {
-        // `split(x) as x`: the explicit output column equals the default
-        match rnd.query_with(ast, true) {
-            Some(c2) if coverage_gap(q, &c2).is_none() => None,
-            _ => Some(g),
+    // `split(x) as x`: the explicit output column equals the default; its tokens may appear twice
+    let mut optional: Vec<String> = vec![];
+    for o in &ast.operators {
+        if let Operator::Inline(p) = o {
+            if let InlineOperator::Split { input_column: Some(a), output_column: Some(b), .. } = &p.value {
+                if a == b {
+                    if let Some(t) = expr_text(a) {
+                        optional.extend(lex(&t).0);
+                    }
+                }
+            }
         }
-    });
+    }
+    let gap = coverage_gap_with(q, &canon, &optional);
     if let Some(gap) = gap {
         good = false;
         let mut i = info.clone();
@@ -1134,7 +1156,8 @@ fn oracles(ctx: &mut Ctx, rep: &mut Rep, rnd: &Renderer, family: &str, q: &str, 
             rep.fail(ctx, family, q, "C04/trailing-text-ignored", "part of the accepted query text is not reflected in what runs", i);
         }
     }
-    if good {
+    // `now()` differs between two runs by construction
+    if good && !q.contains("now") {
         let a = probe_rows(q, PROBE.as_bytes());
         let b = probe_rows(&canon, PROBE.as_bytes());
         // the ASTs are equal, so a difference can only be run-to-run nondeterminism (hash order
